@@ -2,8 +2,8 @@ package rules
 
 import (
 	"go/token"
-	"os"
 	"go/types"
+	"os"
 	"sort"
 	"strings"
 
